@@ -50,9 +50,13 @@ def contexts(tier):
     # the reduced-alphabet contexts of the tree checks: deeper, and they must be accepted too
     if os.environ.get("C01_NO_DEEP"):
         return out
-    for c, n in c02.contexts(tier)[:9] + c05.contexts(tier)[:3] + [x for x in c03.contexts(tier) if isinstance(x[0], Ctx)]:
-        c2 = Ctx("deep:" + c.name, c.prefix, c.suffix, domain=c.domain)
-        out.append((c2, n - 1 if q else n))
+    for c, n in c02.contexts(tier) + c05.contexts(tier) + c03.contexts(tier):
+        if isinstance(c, PatCtx):
+            if "+pragma" in c.name and q:
+                continue
+            out.append((PatCtx("deep:" + c.name, c.prefix, " ".join(c.pattern), c.suffix, c.classes), 0))
+        else:
+            out.append((Ctx("deep:" + c.name, c.prefix, c.suffix, domain=c.domain), n - 1 if q else n))
     return out
 
 
